@@ -35,21 +35,21 @@ def P(pid, targets, bounded, text, note=None, level="proof", unverified=()):
                      unverified=list(unverified))
 
 
-P("C01", [f"{UT}:rlencode", f"{CR}:index_pixels", f"{CR}:create", f"{TOP}:get"], "bounded/C01.py",
+P("C01", [f"{UT}:rlencode", f"{CR}:index_pixels", f"{CR}:create", f"{CR}:write_pixels", f"{TOP}:get"], "bounded/C01.py",
   "Proof core shared with C02 (index construction for every pixel column and chunking). create() itself is verified as a coordinator over a ghost operation log (every helper and h5py call replaced by a recording stub; 41 configurations of mode/append/root-or-nested target/check flags/input forms/single-cell append, symbolic paths, counts and symmetric flag): the caller's "
   "pixels are what is validated and streamed, once, into <group>/pixels; the callers' bins are what is written; columns "
   "are the ids followed by the requested value columns with the caller's dtypes overriding the defaults; assembly and "
   "metadata reach the info record verbatim. The write/read round trip through real HDF5 files is covered by the "
-  "bounded tier (all small matrices x input forms x dtypes x metadata documents).",
-  unverified=["write_pixels / write_bins / write_chroms / write_info bodies (HDF5 I/O; stubs in the create contract)",
+  "bounded tier (all small matrices x input forms x dtypes x metadata documents). write_pixels (the append loop every producer goes through) is verified with ghost dataset contents for EVERY number of chunks and chunk lengths: each pixel column ends up as the concatenation of that column over the chunks in order, its length is the returned nnz (pre-allocated rows dropped when nothing arrived), the returned total is the sum of the count column (integer and float configurations), only the target group of the target file is touched, always opened r+.",
+  unverified=["write_bins / write_chroms / write_info bodies (HDF5 I/O; stubs in the create contract)",
               "create_cooler / ArrayLoader.__iter__", "api.pixels read path"],
   level="other")
 
-P("C02", [f"{UT}:rlencode", f"{CR}:index_pixels", f"{CR}:index_bins", f"{CR}:create"], "bounded/C02.py",
+P("C02", [f"{UT}:rlencode", f"{CR}:index_pixels", f"{CR}:index_bins", f"{CR}:create", f"{CR}:write_pixels"], "bounded/C02.py",
   "Proof: the chunked run-length encoder behind both offset indexes is verified for every input array and EVERY "
   "chunk size (the carry of the last value across each block boundary is a loop invariant; constancy of runs by an "
-  "induction lemma); index_pixels / index_bins are proved to build exactly the lower-bound (run-length) index of the sorted key column on top of rlencode's contract. create() itself is verified as a coordinator over a ghost operation log (every helper and h5py call replaced by a recording stub; 41 configurations of mode/append/root-or-nested target/check flags/input forms/single-cell append, symbolic paths, counts and symmetric flag): index_bins and index_pixels are called once, after the pixels are written, on the bin table and pixel table just written under the target group with the bin count and the nnz that write_pixels returned; both results are stored under <group>/indexes; the info record is written last and carries exactly nbins = len(bins), nchroms, the written nnz and sum, the inferred bin size and the storage mode. Producer outputs are re-derived with raw h5py by the bounded tier.",
-  unverified=["write_info (adds format/version/date attributes)", "producer stream order (merge/coarsen)", "write_pixels/prepare_pixels bodies (HDF5 I/O)"])
+  "induction lemma); index_pixels / index_bins are proved to build exactly the lower-bound (run-length) index of the sorted key column on top of rlencode's contract. create() itself is verified as a coordinator over a ghost operation log (every helper and h5py call replaced by a recording stub; 41 configurations of mode/append/root-or-nested target/check flags/input forms/single-cell append, symbolic paths, counts and symmetric flag): index_bins and index_pixels are called once, after the pixels are written, on the bin table and pixel table just written under the target group with the bin count and the nnz that write_pixels returned; both results are stored under <group>/indexes; the info record is written last and carries exactly nbins = len(bins), nchroms, the written nnz and sum, the inferred bin size and the storage mode. Producer outputs are re-derived with raw h5py by the bounded tier. write_pixels (the append loop every producer goes through) is verified with ghost dataset contents for EVERY number of chunks and chunk lengths: each pixel column ends up as the concatenation of that column over the chunks in order, its length is the returned nnz (pre-allocated rows dropped when nothing arrived), the returned total is the sum of the count column (integer and float configurations), only the target group of the target file is touched, always opened r+.",
+  unverified=["write_info (adds format/version/date attributes)", "producer stream order (merge/coarsen)", "prepare_pixels body (HDF5 I/O)", "h5py Dataset.resize / slice assignment (assumed by the ghost-dataset stub)"])
 
 P("C03", [f"{RQ}:_comes_before", f"{RQ}:_contains", f"{RQ}:arg_prune_partition",
           f"{RQ}:CSRReader.get_spans", f"{RQ}:CSRReader.__call__",
@@ -87,9 +87,9 @@ P("C06", [f"{RED}:merge_breakpoints"], "bounded/C06.py",
   "Proof core: the merge-epoch partition (merge_breakpoints: bisect loop with invariant and variant, for k = 1,2,3 input indexes and every buffer size) ends exactly where every input is exhausted and is strictly increasing. Bounded stand-in for the rest (all small record multisets x partitions x orders x mergebuf x max_merge).",
   level="other", unverified=["create_from_unordered (sort pass / two-pass merge plan over temporary files)", "CoolerMerger.__iter__ (pandas concat/groupby per epoch)"])
 
-P("C07", [f"{RED}:merge_breakpoints", f"{UT}:get_binsize", f"{ING}:_validate_pixels"], "bounded/C07.py",
-  "Proof core: merge_breakpoints (shared with C06). Bounded stand-in for the rest (all small input families x mergebuf x orders x nestings x dtype limits).",
-  level="other", unverified=["CoolerMerger.__init__/__iter__ (pandas concat/groupby-sum per epoch)", "merge_coolers (compatibility checks)", "write_pixels"])
+P("C07", [f"{RED}:merge_breakpoints", f"{UT}:get_binsize", f"{ING}:_validate_pixels", f"{CR}:write_pixels"], "bounded/C07.py",
+  "Proof core: merge_breakpoints (shared with C06); write_pixels (the append loop the merged stream goes through) is verified with ghost dataset contents for EVERY number of chunks and chunk lengths: each pixel column is the concatenation of the chunks in order, its length is the returned nnz, the returned total is the sum of the count column in the integer AND the float configuration (no truncation of float sums). Bounded stand-in for the rest (all small input families x mergebuf x orders x nestings x dtype limits).",
+  level="other write_pixels (the append loop every producer goes through) is verified with ghost dataset contents for EVERY number of chunks and chunk lengths: each pixel column ends up as the concatenation of that column over the chunks in order, its length is the returned nnz (pre-allocated rows dropped when nothing arrived), the returned total is the sum of the count column (integer and float configurations), only the target group of the target file is touched, always opened r+.", unverified=["CoolerMerger.__init__/__iter__ (pandas concat/groupby-sum per epoch)", "merge_coolers (compatibility checks)"])
 
 P("C08", [f"{RED}:_greedy_prune_partition", f"{RED}:CoolerCoarsener.__init__", f"{UT}:get_binsize"], "bounded/C08.py",
   "Proof core: CoolerCoarsener.__init__ builds, for every chromosome layout, factor and chunk size, a pixel partition whose every edge is the offset of a coarse-row start (bin1_offset[chrom_offset[c] + g*factor]) or nnz (loop invariant with ghost witnesses; Cooler/GenomeSegmentation by assumed models), and _greedy_prune_partition keeps only values of that edge list, ordered, from 0 to nnz - so no coarse row is ever split across spans; get_binsize (which decides the re-binning path) is truthful (C20). Bounded stand-in for the rest (all small coolers x factors x chunk sizes x workers against a block-aggregate model).",
@@ -109,8 +109,8 @@ P("C12", [f"{API}:matrix", f"{API}:Cooler.matrix", f"{RQ}:CSRReader.__call__"], 
   "Proof: api.matrix (sparse and dense outputs) multiplies every raw value by the weight of its own row bin and its own column bin from the selected column (reciprocals when divisive; rows from [i0,i1), columns from [j0,j1) also when the ranges differ, incl. the aliasing shortcut for equal ranges), refuses a missing column with ValueError, and builds the fill-lower engine iff asked with the window as bounding box (engine outputs by assumed model; their content is C03's exactly-once lemma and the CSRReader.__call__ contract, included). Cooler.matrix is proved to pass every option through, with the divisive default exactly for KR/VC/VC_SQRT when the caller passed None and fill_lower = symmetric-upper. The balanced pixel-table branch (annotate) and dump -b are covered by the bounded tier; NaN propagation through * and / is assumed (IEEE), not modelled.", level="other",
   unverified=["api.matrix as_pixels+balance branch (annotate)", "dump --balanced annotator"])
 
-P("C13", [f"{ING}:_validate_pixels", f"{CR}:create"], "bounded/C13.py", "Proof core: the default validator accepts a chunk iff it has no out-of-range id, no lower-triangle pixel (symmetric mode) and no in-chunk duplicate, raises BadInputError exactly otherwise, and returns the records unchanged (pandas duplicated/sort_values by assumed contract). create() itself is verified as a coordinator over a ghost operation log (every helper and h5py call replaced by a recording stub; 41 configurations of mode/append/root-or-nested target/check flags/input forms/single-cell append, symbolic paths, counts and symmetric flag): the validator is chained onto the caller's pixel stream iff any check is requested, with the bin count and exactly the requested checks (triangularity only in symmetric mode); a refused call opens no file; every write lies inside the target group of the target file; the info record is written once and last, so a stream that fails has left no info record. What an interrupted write leaves on disk is covered by the bounded tier (fault injection at every chunk index).", level="other",
-  unverified=["write_pixels body (the per-chunk append loop, where a mid-stream failure happens)", "is_cooler on the partial file (bounded)"])
+P("C13", [f"{ING}:_validate_pixels", f"{CR}:create", f"{CR}:write_pixels"], "bounded/C13.py", "Proof core: the default validator accepts a chunk iff it has no out-of-range id, no lower-triangle pixel (symmetric mode) and no in-chunk duplicate, raises BadInputError exactly otherwise, and returns the records unchanged (pandas duplicated/sort_values by assumed contract). create() itself is verified as a coordinator over a ghost operation log (every helper and h5py call replaced by a recording stub; 41 configurations of mode/append/root-or-nested target/check flags/input forms/single-cell append, symbolic paths, counts and symmetric flag): the validator is chained onto the caller's pixel stream iff any check is requested, with the bin count and exactly the requested checks (triangularity only in symmetric mode); a refused call opens no file; every write lies inside the target group of the target file; the info record is written once and last, so a stream that fails has left no info record. What an interrupted write leaves on disk is covered by the bounded tier (fault injection at every chunk index).", level="other write_pixels (the append loop every producer goes through) is verified with ghost dataset contents for EVERY number of chunks and chunk lengths: each pixel column ends up as the concatenation of that column over the chunks in order, its length is the returned nnz (pre-allocated rows dropped when nothing arrived), the returned total is the sum of the count column (integer and float configurations), only the target group of the target file is touched, always opened r+.",
+  unverified=["what a mid-stream exception leaves on disk (write_pixels is proved for complete streams only)", "is_cooler on the partial file (bounded)"])
 
 P("C14", [f"{SEL}:_IndexingMixin._process_slice", f"{SEL}:RangeSelector1D.__getitem__", f"{SEL}:RangeSelector1D.fetch", f"{TOP}:get"], "bounded/C14.py",
   "Proof core: slice/scalar normalisation of every table selector for all integer bounds, and the table read (get: rows lo..hi-1 of every requested plain column, labelled lo.., independent of the column selection, Series for a single name); enum decoding, the selectors' glue and annotate "
